@@ -328,6 +328,9 @@ def main() -> int:
         else:
             inconclusive.append(r)
     extra = getattr(mod, "evidence_extra", lambda tier: {})(tier)
+    if a.only:
+        extra = dict(extra)
+        extra["partial_run_filter"] = a.only  # debugging run over a subset of the obligations: NOT the registered check
     level = getattr(mod, "LEVEL", "other")
     total_paths = sum(int(r.get("paths") or 0) for r in results)
     conf_paths = sum(int(r.get("confirmed_paths") or 0) for r in results if r["status"] in ("confirmed",))
